@@ -42,7 +42,8 @@ CLAIMS = {
             'Unbounded deductive proof (Verus): LzCircularBuffer::set fails iff the window would have to grow beyond memlimit and then '
             'changes nothing; append_literal/append_lz with an infallible sink fail iff min(dict_size, produced) would exceed the '
             'limit; invariant buf.len() <= memlimit; LzmaDecoder::new/decompress and lzma_decompress_with_options pass the limit '
-            'unchanged and succeed whenever mem_ok(dict, limit, produced) (completeness clause). Streaming path: see C05 status.',
+            'unchanged and succeed whenever mem_ok(dict, limit, produced) (completeness clause). Streaming path: Stream::read_header hands '
+            'options.memlimit unchanged to the window (ST.hdr.memlimit), whose clauses above then apply to every write.',
             'Verus function contracts + data-structure invariant on mechanically extracted real code', '5 C10'),
     'C11': (True,
             'Unbounded deductive proof (Verus): every reader-advancing function states advanced(input, k) with k the spec decoder byte '
